@@ -544,3 +544,26 @@ def guard(fn):
             return {"exc": type(e).__name__, "msg": str(e)[:300]}
     w.__name__ = fn.__name__
     return w
+
+
+def safe_judge(fn):
+    """decorator for judge functions (first argument = Run): an implementation output the harness cannot even interpret
+    (unexpected shape/type after a code change) is a broken correspondence, not an infrastructure error"""
+    import functools
+
+    @functools.wraps(fn)
+    def w(R, *a, **k):
+        try:
+            return fn(R, *a, **k)
+        except Infra:
+            raise
+        except Exception as e:  # noqa
+            tb = traceback.format_exc()[-900:]
+            inp = None
+            for x in a:
+                if isinstance(x, dict):
+                    inp = x
+                    break
+            R.corr_break("implementation output can be interpreted by the harness (shape/type as documented)", fn.__module__ + "." + fn.__name__,
+                         inp, "harness exception while judging: " + repr(e), tb)
+    return w
